@@ -252,6 +252,10 @@ func (f *Frame) applyContract(cur *blockCur, in ssa.Instruction, con *Contract, 
 		for _, item := range con.Modifies {
 			post = f.havocItem(env, post, con, callee, item)
 		}
+		for _, fact := range c.pendingFacts {
+			cur.assume(fact)
+		}
+		c.pendingFacts = nil
 		// the ghost effect counter is always unknown after a call that is summarised by a contract; the callee's
 		// postconditions may pin it down through effects()
 		g := HeapKey{Name: "G_effects", Sort: "Int"}
@@ -329,9 +333,38 @@ func (f *Frame) havocItem(env *SpecEnv, st *State, con *Contract, callee *ssa.Fu
 	}
 	// evaluate the designator (without [*] / *) to get the object reference
 	des := strings.TrimSuffix(item, "[*]")
+	rbase, rlo, rhi, isRange := splitModRange(item)
+	if isRange {
+		des = rbase
+	}
 	des = strings.TrimPrefix(des, "*")
 	c.havocSeq++
 	hn := fmt.Sprintf("hv%d", c.havocSeq)
+	if isRange && kind == "elems" && c.mode == ModeInt {
+		// x[lo:hi]: only the elements lo..hi-1 of the slice x change; the rest of its backing array is kept
+		ex, perr := parseSpec(des)
+		if perr != nil {
+			f.unsupported("modifies %q: %v", item, perr)
+		}
+		e2 := env.clone()
+		e2.st = st
+		sv := e2.eval(ex)
+		loE, err1 := parseSpec(rlo)
+		hiE, err2 := parseSpec(rhi)
+		if err1 != nil || err2 != nil {
+			f.unsupported("modifies %q: bad range", item)
+		}
+		lo := e2.idx(e2.eval(loE))
+		hi := e2.idx(e2.eval(hiE))
+		el := t.Underlying().(*types.Slice).Elem()
+		k := c.so.heapArr(el)
+		fresh := c.declare(hn+"_"+k.Name, fmt.Sprintf("(Array %s %s)", c.so.idxSort(), c.so.sortOf(el)))
+		old := fmt.Sprintf("(select %s (s_ref %s))", st.get(k), sv.S)
+		fact := fmt.Sprintf("(forall ((i!h Int)) (! (=> (or (< i!h (+ (s_off %s) %s)) (>= i!h (+ (s_off %s) %s))) (= (select %s i!h) (select %s i!h))) :pattern ((select %s i!h))))",
+			sv.S, lo, sv.S, hi, fresh, old, fresh)
+		c.pendingFacts = append(c.pendingFacts, fact)
+		return st.set(k, fmt.Sprintf("(store %s (s_ref %s) %s)", st.get(k), sv.S, fresh))
+	}
 	switch {
 	case strings.HasPrefix(kind, "field:"):
 		// designator minus last component evaluates to the object
